@@ -245,6 +245,13 @@ func checkC08(c *Ctx) error {
 // and none of them waits for another Async provider.
 func checkC05(c *Ctx) error {
 	c.Level = "model_checking"
+	qn := 13
+	if c.Thorough() {
+		qn = 16
+	}
+	if err := queueLemma(c, qn); err != nil {
+		return err
+	}
 	progs := corpusFor(c)
 	var queries, sets int
 	st, err := forEachInjector(c, progs, func(ic *InjCase) {
